@@ -17,12 +17,17 @@ CLAIMED = {
           "(rejection leaves list+labels alone, labels given only at the insertion position and stable, selection "
           "pure, slews exact). The same model is the test generator: every behaviour up to the bound (all start "
           "lists x both classes x every operation/argument) and thousands of random deeper behaviours are replayed "
-          "on real setigen objects with ids/labels/aggregates/start times compared after every action."),
+          "on real setigen objects with ids/labels/aggregates/start times compared after every action. Leg T: free-form "
+          "recorded executions (harness/record_cadence.py: several cadences sharing up to 16 objects, selections operated "
+          "on further, deep copies, pickles, too-short order strings, list / tuple / ndarray index arrays) and the "
+          "repository's own cadence and plotting tests (pytest plugin verif_cadence_recorder) are validated event by event "
+          "against CadenceTrace.tla, which re-uses the Python list operators of the model-checked spec (PyList.tla) and "
+          "names the failing clause of a rejected event."),
     note=("Trusted: TLC, the adapter's projection (identity via id(), integer times), the frame pool (4 compatible "
           "frames incl. a descending twin, 4 frames differing in one guarded attribute, 1 non-frame). Bounded: "
-          "cadences <= 4 frames, exhaustive to 2 (quick) operations after construction, random to depth 6-8. "
-          "Tuple index arrays not exercised."),
-    technique="TLA+ model (TLC exhaustive) + spec-generated behaviours replayed on the implementation",
+          "cadences <= 4 frames, exhaustive to 2 (quick) operations after construction, random to depth 6-8; recorded "
+          "traces: 14-18 operations, times in 10 us ticks compared at 2 ticks."),
+    technique="TLA+ model (TLC exhaustive) + spec-generated behaviours replayed on the implementation + trace validation of recorded executions (incl. the repository's tests)",
     design_ref="DESIGN.md 4.5, 5 (C18)", engine="cadence"),
  "C10": dict(
     text=("Stream.tla models DataStream clocks, Antenna and MultiAntennaArray with every sample identified by its "
@@ -56,11 +61,13 @@ CLAIMED = {
           "p <= 0), CachedFromRefreshCall and ZeroVariance for all (bits, period, target deviation/mean, real/complex) "
           "and call sequences with resets and custom deviations. Generated behaviours are replayed on real quantiser "
           "objects; every output value must lie in TLC's admissible set and the counter/cached statistics must equal "
-          "the model's after every call; quantize_real is driven over the same map."),
+          "the model's after every call; quantize_real is driven over the same map. Leg T: the refresh schedule of every "
+          "quantiser object inside real recordings (digitisers and requantisers per antenna / polarisation / component, "
+          "periods incl. <= 0, second recordings, the repository's voltage tests) is validated against QuantTrace.tla."),
     note=("Trusted: TLC, inputs built with exactly representable prefix mean/deviation (stats_calc_num_samples=2), "
           "+-1e30 as 'huge'. Bounded: bits 2..8, periods -2..4, K in {1,3}, <= 10 calls. Internal attributes "
           "stats_calc_indices/stats_cache are compared when present."),
-    technique="TLA+ model (TLC exhaustive) + spec-generated behaviours replayed on the implementation",
+    technique="TLA+ model (TLC exhaustive) + spec-generated behaviours replayed on the implementation + trace validation of recorded executions",
     design_ref="DESIGN.md 4.9, 5 (C09)", engine="quantizer"),
  "C08": dict(
     text=("PFB.tla models channelize() as rows of B samples with the tail cache that makes chunked calls contiguous, "
@@ -70,7 +77,8 @@ CLAIMED = {
           "replayed on real PolyphaseFilterbank objects (integer window assigned) and every returned spectrum and "
           "cache length compared with TLC's. For realistic (taps, branches, window) a harness-owned direct FIR+DFT "
           "definition, linearity, every composition of the stream into chunks (bit-for-bit vs one-shot), the FIR "
-          "window design and get_pfb_voltages are checked numerically."),
+          "window design and get_pfb_voltages are checked numerically, several objects with the same taps x branches "
+          "product in one process and a scale leg (1024 branches, long streams) included."),
     note=("Trusted: TLC, numpy FFT-free direct definition with explicit DFT matrix (1e-9 relative), scipy firwin as "
           "the window definition. Exact leg bounded to B in {2,4}, taps in {2,3}, <= 6 windows; numeric leg to "
           "B <= 1024, taps <= 16."),
@@ -93,7 +101,9 @@ CLAIMED = {
           "same backend) and the repository's own voltage tests run under a run-time recorder (harness/record.py, pytest "
           "plugin verif_recorder) are validated event by event (header/PKTIDX, request size and start flag, clock advance "
           "of the source and of every stream, channelize input/cache/output rows, updated num_subblocks, block count) "
-          "against BackendTrace.tla."),
+          "against BackendTrace.tla. Blocks beyond 2^16 spectra are recorded in a scale leg; the thorough tier discharges "
+          "the sub-block plan lemma (fixed point, cover, last partial sub-block) for all sizes with Apalache "
+          "(ArithLemmas.tla)."),
     note=("Trusted: TLC, the reference pipeline and GUPPI encoder/parser in /verif/harness, numpy arithmetic. "
           "Statistics from a common prefix (period -1); 1-LSB tolerance only within 1e-7 of a rounding tie of the "
           "reference. Bounded: taps 2-3, <= 7 windows/block, <= 3 blocks, branches 8/16."),
@@ -110,7 +120,8 @@ CLAIMED = {
           "owned-field override attempts, template-overlapping zero-valued user cards, 1-4 blocks, 1-3 blocks/file, "
           "antenna/array are parsed by the independent parser into traces validated by RawFilesTrace.tla (position, "
           "padding, BLOCSIZE, PKTIDX step, owned fields, user cards, file count). Backend.tla adds BlocksPerFile / "
-          "PktIdxStep over two recordings per process."),
+          "PktIdxStep over two recordings per process. Recordings made before / next to existing files of the same stem, "
+          "END-prefixed card names and the DIRECTIO padding rule for all header lengths (Apalache, thorough tier) are covered."),
     note=("Trusted: TLC, the independent parser/writer harness/guppi.py, float comparison of header values at 1e-12 "
           "relative (card text formatting is a projection). Empty-string card values are not exercised."),
     technique="TLA+ model (TLC exhaustive) + trace validation of recorded files + spec-generated directories read by the implementation",
@@ -123,7 +134,8 @@ CLAIMED = {
           "get_total_obs_num_samples in both modes, get_block_size, get_unit_drift_rate, params_from_backend / "
           "from_backend_params, and a recording by duration (attributes, blocks on disk, SCANLEN, PKTSTOP, antenna "
           "clock advance). Backend.tla adds SamplesDrawn / ClockAdvance and the exact antenna request sequence of "
-          "every recording."),
+          "every recording; InputMode.tla adds the length clamped to the input recording. Durations include 5000 and "
+          "20000 blocks a hair (1e-5 block) short of a boundary."),
     note=("Trusted: TLC rationals, python Fractions in the adapter; floats compared at 1e-12..1e-14 relative. Sample "
           "rate 3e9 is reached by scaling 187.5e6 x16 (TLC integers are 32-bit). Sign of get_unit_drift_rate for "
           "descending bands is not judged (absolute value compared)."),
@@ -142,7 +154,8 @@ CLAIMED = {
           "model's, the synthetic spectra must be the PFB of one continuous antenna timeline, the second "
           "requantisation must take input + scaled synthetic with the input block's statistics as targets, the file "
           "bytes must be the requantised values in standard layout, and with nothing injected and one sub-block the "
-          "output must reproduce the input bit for bit."),
+          "output must reproduce the input bit for bit. A second recording by the same from_data backend with the same or "
+          "the flipped digitise flag is part of the model."),
     note=("Trusted: TLC, harness GUPPI writer/parser, reference PFB; observation through wrappers on _read_next_block and "
           "the requantisers' RealQuantizer.quantize (pipeline-internal methods). Sub-block counts divide the windows "
           "per block here. Quantisation formula itself is C09's."),
@@ -159,7 +172,10 @@ CLAIMED = {
           "fine bin of the tone; OBSFREQ/CHAN_BW/OBSBW/TBIN must equal the model's; get_raw_params must reproduce "
           "fch1/chan_bw/orientation; get_pfb_waterfall and get_waterfall_from_raw must have TLC's shape, peak column "
           "and the values of consecutive integrations from the start; chirps of both signs must follow f_start + "
-          "drift*t segment by segment."),
+          "drift*t segment by segment, also across a second recording by the same backend (continuing from the time "
+          "elapsed on the source). Drawn per configuration: headers padded to exactly 32 n cards under DIRECTIO (no "
+          "padding), and re-recording through from_data with the same first-channel index (output header cards, tone "
+          "location and get_raw_params must equal the input's)."),
     note=("Trusted: TLC, the harness GUPPI parser, numpy FFT for peak finding (numeric projection outside TLC), tone "
           "26 dB above noise. Excluded as in the statement: DC-straddling channel, channel centres; additionally "
           "tones within half a fine bin of a coarse-channel edge (aliased by the critically sampled PFB)."),
@@ -173,7 +189,8 @@ CLAIMED = {
           "(df, dt, f0) geometries (dyadic, BL hi-res at 6 GHz, decimal 0.1/0.7, MHz-scale, milli-Hz at 8 GHz) through "
           "all five routes (sizes, shape, data/from_data, astropy quantities in kHz/ms/MHz/GHz, backend parameters) and "
           "every attribute / conversion is placed on TLC's grid with exact Fractions; the opposite-orientation twin must "
-          "have the same axes and produce the same injected data."),
+          "have the same axes and produce the same injected data; ts_ext must follow the time axis after it has been "
+          "moved in place (what Cadence.add_signal does) and after it has been put back."),
     note=("Trusted: TLC, python Fractions; tolerance max(1e-6 channel, 4 ulp of the absolute frequency) for frequencies, "
           "4 ulp for times, 1e-14 relative for resolutions; injected-data equality of twins at 1e-9 + 256 ulp(f)/df."),
     technique="TLA+ model (TLC exhaustive) + spec-generated frames instantiated on the implementation",
@@ -189,7 +206,8 @@ CLAIMED = {
           "plus a random cross product assembled by a Pick chain; each is executed by the real add_signal on 3 geometries "
           "(dyadic, BL hi-res at 6 GHz, MHz-scale), both orientations, and the returned matrix compared with TLC's. "
           "Shipped path/profile families with random parameters are compared with the statement written out by the "
-          "harness from the user's own callables (numeric projection)."),
+          "harness from the user's own callables (numeric projection). Odd geometry (df 1.7, dt 0.7), unit-carrying "
+          "bounding ranges and a large-grid leg are included."),
     note=("Trusted: TLC, the float implementation of the probe family in the adapter, geometry-scaled tolerance "
           "(1e-9 + 64 ulp(fmax)*24/df*16), numpy. Left Riemann grids are taken as 'the documented average'. Unspecified "
           "and not generated: array bandpass with bounding range or integrate_f_profile; several malformed components."),
@@ -229,10 +247,15 @@ CLAIMED = {
           "slice / tail, raising on every k) runs on real plain and ordered cadences on 2 geometries: exception "
           "propagation, every frame's ts restored, every frame's data equal to TLC's matrix (zero for frames at/after the "
           "raise), consolidation in order with absolute times, overwrite_times chain and slew_times equal to TLC's, "
-          "sub-cadences never re-spacing the parent."),
+          "sub-cadences never re-spacing the parent. Two consecutive cadence-wide injections over different sub-cadences "
+          "(direct frame injection in between, BaseException callbacks) are part of the model. Leg T: recorded executions "
+          "of Cadence.add_signal (per-member Inject events with the time-axis offset of every member at that moment, "
+          "raising callbacks, overwrite_times) incl. the repository's own cadence injection test are validated against "
+          "CadenceTrace.tla (in list order, offset = relative start, stops at the raise, axes restored, start times "
+          "untouched, slews exact)."),
     note=("Trusted: as C01 (probe family, geometry-scaled tolerance); start times are whole multiples of dt; ts compared "
           "at 4 ulp of the shifted magnitude."),
-    technique="TLA+ model (TLC exhaustive) + spec-generated behaviours (incl. fault at every step) replayed on the implementation",
+    technique="TLA+ model (TLC exhaustive) + spec-generated behaviours (incl. fault at every step) replayed on the implementation + trace validation of recorded executions",
     design_ref="DESIGN.md 4.5, 5 (C16)", engine="cadinject"),
  "C03": dict(
     text=("FrameLife.tla models the life of frames with pixel identities (1000*(row+1) + world channel): create (sizes / "
@@ -255,7 +278,9 @@ CLAIMED = {
           "and via metadata; integration sums / means per column and per row, Spectrum / TimeSeries objects carrying the "
           "parent's axis, orientation, start time and source; normalised output an increasing affine image; derived "
           "frames keep orientation / resolutions / start time / source name and hold their own data (Mutate never "
-          "changes another object)."),
+          "changes another object). Replaced time axes (shifted, or gapped as Cadence.consolidate makes them) are part of "
+          "the state: de-drifting and integration go by row index, the TimeSeries carries the parent's axis; every "
+          "sequence over a small alphabet around them is enumerated exhaustively (Focus = derive)."),
     note=("Trusted: as C03. Drift rates are multiples of a quarter channel per row on exactly representable geometries "
           "plus BL hi-res; |q| <= 9/4 channels per row."),
     technique="TLA+ model (TLC exhaustive) + spec-generated behaviours replayed on the implementation",
@@ -268,7 +293,9 @@ CLAIMED = {
           "12 channels, 6x6 arrays) run on the real code: band jobs on real .fil files with pixel identities at 6 "
           "(df, f0) geometries and both orientations (piece count, each piece's data = the file channels TLC names, its "
           "first-channel frequency, the requested leading integrations, split_fil output loadable and registered, output "
-          "directory re-used across jobs); array jobs tile by tile incl. ragged untrimmed edges and default shifts."),
+          "directory re-used across jobs, up to 4 different splits of one unchanged file); array jobs tile by tile incl. "
+          "ragged untrimmed edges and default shifts, in 6 memory layouts (contiguous, views of larger arrays, strided "
+          "rows, Fortran order, float32). The thorough tier discharges PieceCount for all sizes with Apalache."),
     note=("Trusted: TLC, blimpy for reading pieces, pixel identities exact in float32; piece frequencies at 1e-3 channel."),
     technique="TLA+ model (TLC exhaustive) + spec-generated jobs executed by the implementation",
     design_ref="DESIGN.md 4.6, 5 (C19)", engine="split"),
@@ -282,7 +309,10 @@ CLAIMED = {
           "data delta bit for bit, estimates equal to the parameters / chi2 formula with TLC's k / the sigma-clipped "
           "re-estimate, table parameters are table entries (one common row when shared; built-in table scaled by dt), "
           "truncated noise >= floor, intensity/snr inverse and ValueError without noise, stream/background/total "
-          "deviations equal TLC's variances after every call and after update_noise."),
+          "deviations equal TLC's variances after every call; user-defined sources and update_noise() on streams and "
+          "backgrounds are actions of the model (UpdateKeepsRealised, AddNoiseAddsInQuadrature), the re-estimated "
+          "deviation is judged statistically and later add_noise calls must add to it in quadrature. Frames are driven at "
+          "intensity scales 1, 4e6, 1e-3 and 1e-10."),
     note=("Distribution clauses are OUTSIDE what TLC evaluates: sample mean and variance of every added noise array and of the "
           "realised voltages are tested at 6.5 standard errors (from the sample's fourth moment) against the mean / "
           "variance the spec names; false-alarm probability < 1e-6 per run. Trusted: numpy/scipy normal cdf, astropy "
@@ -300,7 +330,8 @@ CLAIMED = {
           "(bit-identical bytes / voltages / data required) and once with different seeds (different output required; "
           "polarisations and antennas must not share noise). FrameLife.tla behaviours judge copies, pickle round trips "
           "(dumps/loads and save_pickle/load_pickle) and loaded frames: equal to the original in every projected "
-          "attribute (incl. a replaced time axis) and unchanged when any other object is mutated."),
+          "attribute (incl. a replaced time axis) and unchanged when any other object is mutated. A cross-process leg runs "
+          "one workload in two fresh interpreters (different hash seeds) and compares digests."),
     note=("Trusted: as C02 / C03 / C10. The channelised-noise estimate used for injection onto RAW is deterministic only if "
           "the user seeds it beforehand (estimate_channelized_stds(seed=...)); the backend's lazy call is unseeded by "
           "design of the API and is not judged."),
